@@ -1,3 +1,32 @@
-From Ebml Require Import Base Tools Spec Reader.
-Example C20_ex : ebml_size 127 1 = SUnknown /\ ebml_size 127 2 = SKnown 127.
-Proof. vm_compute. split; reflexivity. Qed.
+(* C20 — async iterator yields what the blocking iterator yields.  Statements only.
+   On the pinned code the property does not hold for every poll schedule (known finding D15: a schedule on which a parse step
+   finds the inner iterator short of data before the source is exhausted yields a spurious end-of-file); what is proved is the
+   part that holds, and the refutation witness is exhibited. *)
+From Ebml Require Import Base Tools Spec Reader Pure Proofs.Tactics Proofs.ReaderIO Proofs.Refine Proofs.AsyncProofs.
+
+(* PARTIAL (C20_first_read_partial): if the source delivers the whole input (at most 64 KiB) with its first read, the
+   non-blocking iterator yields exactly the items, offsets and errors of the abstract reader — which is what the blocking
+   iterator yields for every chunking and capacity (C04_refines) — and ends once *)
+Theorem C20_first_read_partial : forall c input script n rest_script,
+  N.of_nat (length input) <= 65536 ->
+  (script = [] \/ (script = Chunk n :: rest_script /\ N.of_nat (length input) <= n /\ rest_script = [])) ->
+  run_async c script input = snd (p_run_all (4 * length input + 64) c (p_init input)).
+Proof. exact async_first_read. Qed.
+
+(* the full statement is false of the faithful model: witness = a 14-byte document whose first read delivers 1 byte *)
+Theorem C20_refuted : exists c input script,
+  run_async c script input <> run_reader c 65536 [] input [RAll].
+Proof.
+  exists {| c_sp := [ {| e_id := 129; e_ty := DMaster; e_path := [] |}; {| e_id := 16643; e_ty := DMaster; e_path := [PId 129] |};
+                      {| e_id := 16641; e_ty := DUInt; e_path := [PId 129; PId 16643] |}; {| e_id := 16642; e_ty := DBinary; e_path := [PId 129; PId 16643] |} ];
+            c_allow_id := false; c_allow_hier := false; c_allow_over := false; c_max := Some 4000000000; c_buffered := []; c_emit_eof := true |},
+         [129; 140; 65; 3; 137; 65; 1; 129; 5; 65; 2; 130; 1; 2], [Chunk 1].
+  vm_compute. discriminate.
+Qed.
+
+Example C20_ex :
+  let sp := [ {| e_id := 129; e_ty := DMaster; e_path := [] |}; {| e_id := 16641; e_ty := DUInt; e_path := [PId 129] |} ] in
+  let c := {| c_sp := sp; c_allow_id := false; c_allow_hier := false; c_allow_over := false; c_max := Some 4000000000;
+              c_buffered := []; c_emit_eof := true |} in
+  run_async c [] [129; 132; 65; 1; 129; 7] = [OItem (TStart 129) 0; OItem (TElem 16641 (VU 7)) 2; OItem (TEnd 129) 0; ONone].
+Proof. vm_compute. reflexivity. Qed.
